@@ -3,7 +3,7 @@ from .. import core, fm, km, mc, ref
 from ..core import Failure
 
 PAIRS = [q + o for q in 'AE' for o in 'XFGUR']
-NAMINGS = ['int', 'str', 'revint', 'tuple', 'mixed', 'zigzag', 'numeq']
+NAMINGS = ['int', 'str', 'revint', 'tuple', 'mixed', 'zigzag', 'numeq', 'fsets']
 FORMS = ['obj', 'text', 'str', 'ctls', 'shared', 'raw']
 
 
